@@ -54,12 +54,13 @@ class Spec:
         st.pending = []
         st.push_off = False      # our ENABLE_PUSH=0 has been acknowledged
         st.push0_sent = False
+        st.badset = False
         st.remote_limit = BIG
         st.dead = False
         return [("start", st)]
 
     def fingerprint(self, st):
-        return fingerprint(st.h.conn, st.h.m.key(), st.local_limit, tuple(st.pending), st.remote_limit, st.dead, st.push_off, st.push0_sent)
+        return fingerprint(st.h.conn, st.h.m.key(), st.local_limit, tuple(st.pending), st.remote_limit, st.dead, st.push_off, st.push0_sent, st.badset)
 
     def actions(self, st):
         if st.dead:
@@ -94,6 +95,7 @@ class Spec:
                 acts += ["l:activate:%d" % sid, "l:activate:%d:es" % sid, "l:badactivate:%d" % sid]
             if not self.client and not s.local_init and s.sent == "none" and s.state in (SM.OPEN, SM.HC_REMOTE):
                 acts.append("l:info:%d" % sid)          # an informational response: no transition, nothing to count
+                acts.append("l:badresp:%d" % sid)       # a response refused for its header list: nothing happens, nothing to count
             if s.state == SM.RES_REMOTE:
                 acts += ["rx:activate:%d" % sid, "rx:activate:%d:es" % sid]
             acts.append("l:rst:%d" % sid)
@@ -104,6 +106,9 @@ class Spec:
             if s.state == SM.CLOSED and s.closed_by == "send_rst" and not s.local_init:
                 acts.append("rx:late:%d" % sid)       # the peer's HEADERS + END_STREAM that raced our reset: opens nothing
                 break
+        if not st.badset:
+            # update_settings({MAX_CONCURRENT_STREAMS: 0, INITIAL_WINDOW_SIZE: 2^31}): refused as a whole, nothing of it is queued
+            acts.append("l:mcsbad:0")
         for v in LIMITS:
             acts.append("rx:mcs:%d" % v)
             if "push0" not in st.pending:
@@ -215,6 +220,19 @@ class Spec:
                 st.dead = True
                 return Step(out + "-conn-error", viols, prune=True)
             out += "-rejected" if rejected else "-ok"
+        elif parts[:2] == ["l", "badresp"]:
+            o = h.api("send_headers", int(parts[2]), H.ni(H.RESP + [(b"te", b"gzip")]))
+            if o.kind == "ok" or o.raw:
+                bad("invalid-headers-accepted", "%s -> %s" % (lab, o.brief()))
+                st.dead = True
+                return Step("badresp-accepted", viols, prune=True)
+        elif parts[:2] == ["l", "mcsbad"]:
+            st.badset = True
+            o = h.api("update_settings", {wire.S_MAX_CONCURRENT_STREAMS: int(parts[2]), wire.S_INITIAL_WINDOW_SIZE: 2 ** 31})
+            if o.kind == "ok" or o.raw:
+                bad("invalid-settings-accepted", "%s -> %s" % (lab, o.brief()))
+                st.dead = True
+                return Step("mcsbad-accepted", viols, prune=True)
         elif parts[:2] == ["l", "badactivate"]:
             # response headers the library must refuse (TE other than trailers): the promised stream stays reserved
             o = h.api("send_headers", int(parts[2]), H.ni(H.RESP + [(b"te", b"gzip")]))
